@@ -110,10 +110,36 @@ def fork_refinement(ctx):
     ctx.cov['evaluations'] += len(cases); ctx.cov['distinct_nontrivial'] += nforks; ctx.cov['disagreements'] = ctx.cov.get('disagreements', 0) + nrej
     ctx.cov['input_distribution']['fork_handshake'] = {'cases': len(cases), 'fork_points_checked': nforks, 'programs': FPROGS}
 
+def bp_bracket(ctx):
+    """bp flavor: the parent's fork bracket (urcu_bp_before_fork / after_fork_parent) issued at any point relative to in-flight grace periods - another thread inside
+    synchronize_rcu() waiting for a reader, dropping and re-taking the registry lock - under the controlled scheduler: nobody may be left blocked"""
+    impl = G.build(ctx, 'scen_sig_bp_c16', ['-DFLAVOR_BP'], 'scen_sig.c')
+    if not impl: return
+    cases = []
+    for prog in ('(r)/S/K', '(q)(r)/SS/KK', '(r)/K/S'):
+        th = [str(i) for i in range(prog.count('/') + 1)]
+        for k in range(0, 70 if ctx.quick() else 160, 2 if ctx.quick() else 1):
+            for j in (0, 3, 8, 15):
+                # the reader enters its section; the updater runs k steps into its grace period (waiting for the reader); the forking thread runs j steps into the
+                # bracket; the updater goes on; then everybody completes
+                cases.append((prog, '>0' + '1b' * k + '2c' * j + '1b' * 12 + '2c' * 30 + '>0>0>1>2'))
+    tail = ''.join(chr(ord('a') + i) + str(i) for i in range(6)) * 400
+    rs = run_many([[impl, p, s + tail] for p, s in cases], timeout=20)
+    nor = 0
+    for (p, s), (rc, raw) in zip(cases, rs):
+        abnormal = [w for w in ('DEADLOCK', 'STEP LIMIT', 'ABORT', 'BUG ', 'TIMEOUT') if w in raw]
+        o = ('the fork bracket and a concurrent grace period block each other (%s): %s' % (abnormal[0], raw[-250:])) if abnormal else G.timing_oracle(raw)
+        if o:
+            nor += 1
+            if nor <= 2: ctx.fail('oracle', 'bp fork bracket against in-flight grace periods (scen_sig, bp)', o, concrete={'scenario': 'scen_sig_bp_c16', 'prog': p, 'schedule': s + tail, 'verdict': o})
+    ctx.cov['evaluations'] += len(cases); ctx.cov['distinct_nontrivial'] += sum(1 for _, raw in rs if 'forkpoint' in raw and 'call sync' in raw)
+    ctx.cov['input_distribution']['bp_fork_bracket'] = {'cases': len(cases)}
+
 def run(ctx):
     ctx.cov['source_hash'] = source_hash(FILES)
     prove(ctx)
     fork_refinement(ctx)
+    bp_bracket(ctx)
     am = build_model_driver(ctx, 'bparena', 'ExtractBpArena.v', 'bparena_driver.ml')
     nseq = 10 if ctx.quick() else 120
     for tag, defs in (('2', ['-DURCU_VERIF_INIT_READER_COUNT=2']), ('default', [])):
